@@ -22,30 +22,48 @@ Proof. split; vm_compute; discriminate. Qed.
 Lemma copy_buffer_positive : 0 < CopyBufferSize.
 Proof. vm_compute. reflexivity. Qed.
 
-Definition deframe_cur := deframe true UdpDeframeBuf UdpRefillBelow UdpMaxRecord UdpWriteBatch.
-Definition deframe_pinned := deframe false UdpDeframeBuf UdpRefillBelow UdpMaxRecord UdpWriteBatch.
+(* the sendmmsg batch writer is created with room for a whole batch, and the in-loop flush fires as soon as a whole
+   batch is pending (`>=`, not `>`): flush() never hands the writer more packets than it can hold *)
+Lemma batch_writer_holds_a_batch : UdpWriteBatch <= UdpBatchWriterCap /\ UdpFlushAtLeast = true.
+Proof. split; [vm_compute; discriminate|reflexivity]. Qed.
+
+(* the local write path: the fallback loop over udpConn.Write (mocks, UDPVirtualConn, ...) or, for a real
+   *net.UDPConn, the sendmmsg batch writer with the regenerated capacity *)
+Definition local_path (bw : option N) : Prop := bw = None \/ bw = Some UdpBatchWriterCap.
+Lemma local_path_cap bw : local_path bw -> forall cap, bw = Some cap -> UdpWriteBatch <= cap.
+Proof.
+  intros [->| ->] cap H; [discriminate H|]. injection H as <-. exact (proj1 batch_writer_holds_a_batch).
+Qed.
+
+Definition deframe_on (bw : option N) := deframe true UdpDeframeBuf UdpRefillBelow UdpMaxRecord UdpWriteBatch bw.
+Definition deframe_cur := deframe_on None.
+Definition deframe_pinned := deframe false UdpDeframeBuf UdpRefillBelow UdpMaxRecord UdpWriteBatch None.
 
 Lemma c12_deframe_any_cut :
-  forall (ds : list dgram) (cut : nat) (cuts : list nat) (e : N) (wd : bool) (fuel : nat),
+  forall (bw : option N) (ds : list dgram) (cut : nat) (cuts : list nat) (e : N) (wd : bool) (fuel : nat),
+  local_path bw ->
   Forall (valid_dgram UdpMaxRecord) ds ->
   (length (firstn cut (encode_all ds)) < fuel)%nat ->
-  exists w, deframe_cur fuel (ust0 (firstn cut (encode_all ds)) cuts e wd None)
+  exists w, deframe_on bw fuel (ust0 (firstn cut (encode_all ds)) cuts e wd None)
             = DDone w (final_err 0 e (tail_after cut ds)) /\
             w_log w = complete_before cut ds /\ w_bytes w = sum_len (complete_before cut ds).
 Proof.
-  exact (deframe_any_cut UdpDeframeBuf UdpRefillBelow UdpMaxRecord UdpWriteBatch
-           refill_above_max_record refill_below_buffer write_batch_positive max_record_fits_u16).
+  intros bw ds cut cuts e wd fuel Hbw.
+  exact (deframe_any_cut UdpDeframeBuf UdpRefillBelow UdpMaxRecord UdpWriteBatch bw (local_path_cap bw Hbw)
+           refill_above_max_record refill_below_buffer write_batch_positive max_record_fits_u16 ds cut cuts e wd fuel).
 Qed.
 
 Lemma c12_udp_roundtrip :
-  forall (evs : list uev) (cuts : list nat) (wd : bool) (fuel : nat),
+  forall (bw : option N) (evs : list uev) (cuts : list nat) (wd : bool) (fuel : nat),
+  local_path bw ->
   Forall (valid_dgram UdpMaxRecord) (ev_dgrams evs) ->
   (length (concat (e_out (encode_events UdpBatchBufSize evs))) < fuel)%nat ->
-  exists w, deframe_cur fuel (ust0 (concat (e_out (encode_events UdpBatchBufSize evs))) cuts 0 wd None) = DDone w 0 /\
+  exists w, deframe_on bw fuel (ust0 (concat (e_out (encode_events UdpBatchBufSize evs))) cuts 0 wd None) = DDone w 0 /\
             w_log w = ev_dgrams evs /\ w_bytes w = e_sent (encode_events UdpBatchBufSize evs).
 Proof.
-  exact (udp_roundtrip UdpDeframeBuf UdpRefillBelow UdpMaxRecord UdpWriteBatch UdpBatchBufSize
-           refill_above_max_record refill_below_buffer write_batch_positive max_record_fits_u16).
+  intros bw evs cuts wd fuel Hbw.
+  exact (udp_roundtrip UdpDeframeBuf UdpRefillBelow UdpMaxRecord UdpWriteBatch UdpBatchBufSize bw (local_path_cap bw Hbw)
+           refill_above_max_record refill_below_buffer write_batch_positive max_record_fits_u16 evs cuts wd fuel).
 Qed.
 
 Lemma c12_encoder_stream : forall evs,
@@ -56,15 +74,16 @@ Proof. exact (encoder_stream UdpBatchBufSize). Qed.
 
 (* for ANY byte stream (malformed ones included), any chunk oracle and any end kind the repaired loop
    returns within |stream|+1 iterations and has written exactly the complete records *)
-Lemma c12_deframe_total : forall (s : list byte) (cuts : list nat) (e : N) (wd : bool) (fuel : nat),
+Lemma c12_deframe_total : forall (bw : option N) (s : list byte) (cuts : list nat) (e : N) (wd : bool) (fuel : nat),
+  local_path bw ->
   (length s < fuel)%nat ->
-  exists w err, deframe_cur fuel (ust0 s cuts e wd None) = DDone w err /\
+  exists w err, deframe_on bw fuel (ust0 s cuts e wd None) = DDone w err /\
                 w_log w = fst (fst (split_all UdpMaxRecord s)).
 Proof.
-  intros s cuts e wd fuel Hf.
+  intros bw s cuts e wd fuel Hbw Hf.
   assert (H0 : lenN (@nil byte) < UdpRefillBelow) by (vm_compute; reflexivity).
-  pose proof (deframe_fixed_spec true _ _ _ _ refill_above_max_record refill_below_buffer write_batch_positive
-                eq_refl fuel (ust0 s cuts e wd None) eq_refl eq_refl H0 Hf) as H.
+  pose proof (deframe_fixed_spec true _ _ _ _ bw refill_above_max_record refill_below_buffer write_batch_positive
+                (local_path_cap bw Hbw) eq_refl fuel (ust0 s cuts e wd None) eq_refl eq_refl H0 Hf) as H.
   cbn [ust0 s_buf s_t t_rd rest s_w s_err endk app] in H.
   destruct (split_all UdpMaxRecord s) as [[recs tail] bad].
   destruct H as (e0 & Hd & _). eexists; eexists. split; [exact Hd|].
@@ -76,11 +95,12 @@ Qed.
 Lemma c12_pinned_spin : forall fuel, deframe_pinned fuel (ust0 [0; 5; 97; 98] [] 0 false None) = DFuel.
 Proof.
   intros [|f]; [reflexivity|]. unfold deframe_pinned. cbn [deframe].
-  replace (outer_step false UdpDeframeBuf UdpRefillBelow UdpMaxRecord UdpWriteBatch (ust0 [0; 5; 97; 98] [] 0 false None))
+  replace (outer_step false UdpDeframeBuf UdpRefillBelow UdpMaxRecord UdpWriteBatch None (ust0 [0; 5; 97; 98] [] 0 false None))
     with (OCont {| s_buf := [0; 5; 97; 98]; s_pend := []; s_w := w0 None;
                    s_t := {| t_rd := {| rest := []; cuts := []; endk := 0; carry := false |}; t_wd := false |}; s_err := 0 |})
     by (vm_compute; reflexivity).
-  apply (pinned_spins_on_partial_record false _ _ _ _ refill_above_max_record refill_below_buffer write_batch_positive eq_refl);
+  apply (pinned_spins_on_partial_record false _ _ _ _ None refill_above_max_record refill_below_buffer write_batch_positive
+           ltac:(intros cap H; discriminate H) eq_refl);
     vm_compute; try reflexivity; discriminate.
 Qed.
 
@@ -88,6 +108,33 @@ Qed.
 Lemma c12_fixed_returns_on_witness :
   deframe_cur 5 (ust0 [0; 5; 97; 98] [] 0 false None) = DDone (w0 None) 3.
 Proof. vm_compute. reflexivity. Qed.
+
+(* every datagram handed to the local writer is a value: no later step of the loop alters it *)
+Lemma c12_values : forall (bw : option N) (fuel : nat) (s : ust) (w : wst) (e : N),
+  local_path bw -> s_pend s = [] -> w_fail (s_w s) = None -> deframe_on bw fuel s = DDone w e ->
+  exists more, w_log w = w_log (s_w s) ++ more.
+Proof.
+  intros bw fuel s w e Hbw.
+  exact (delivered_datagrams_are_values true _ _ _ _ bw refill_above_max_record refill_below_buffer write_batch_positive
+           (local_path_cap bw Hbw) fuel s w e).
+Qed.
+
+(* what the capacity side condition prevents: handing the sendmmsg writer one packet more than it holds loses it
+   silently (no error) — 33 one-byte datagrams flushed at once into a writer of capacity 32 *)
+Lemma c12_batch_overflow_drops :
+  let pend := map (fun i => [N.of_nat i]) (seq 1 33) in
+  uflush_path (Some 32) pend (w0 None) = (false, snd (uflush (firstn 32 pend) (w0 None))) /\
+  length (w_log (snd (uflush_path (Some 32) pend (w0 None)))) = 32%nat.
+Proof. vm_compute. split; reflexivity. Qed.
+
+(* the batch path really is exercised by the model: 40 datagrams in one read through the sendmmsg path *)
+Lemma c12_batch_path_example :
+  let ds := map (fun i => [N.of_nat i; 7]) (seq 1 40) in
+  match deframe_on (Some UdpBatchWriterCap) 200 (ust0 (encode_all ds) [] 0 false None) with
+  | DDone w e => w_log w = ds /\ e = 0 /\ w_bytes w = 80
+  | DFuel => False
+  end.
+Proof. vm_compute. repeat split; reflexivity. Qed.
 
 (* non-vacuity: a concrete datagram list meets the premises, and a cut in the middle of its second record
    delivers exactly the first datagram *)
